@@ -243,6 +243,9 @@ func (c *smCase) collect(frameFrom, createdFrom int) {
 		if p := x.panicked.Load(); p != nil {
 			c.monfail("panic", fmt.Sprintf("OpenStreamSync goroutine panicked: %v", p))
 		}
+		if x.gen != c.gen && x.err != smErr0RTT {
+			c.monfail("reset/waiter-outcome", fmt.Sprintf("OpenStreamSync waiter %d was blocked on a map replaced by ResetFor0RTT and returned stream %d / error class %d instead of Err0RTTRejected", x.w, x.id, x.err))
+		}
 		if x.err == 0 {
 			// FIFO: the served waiter must be the earliest still-parked caller of this map
 			pw := c.parkedWaiters(x.uni)
@@ -285,6 +288,9 @@ func (c *smCase) collect(frameFrom, createdFrom int) {
 		c.nwakes++
 		if p := x.panicked.Load(); p != nil {
 			c.monfail("panic", fmt.Sprintf("AcceptStream goroutine panicked: %v", p))
+		}
+		if x.gen != c.gen && x.err != smErr0RTT {
+			c.monfail("reset/waiter-outcome", fmt.Sprintf("AcceptStream caller %d was blocked on a map replaced by ResetFor0RTT and returned stream %d / error class %d instead of Err0RTTRejected", x.w, x.id, x.err))
 		}
 		if x.err == 0 {
 			c.monAccepted(x.uni, x.id)
@@ -430,6 +436,16 @@ func (c *smCase) monAccepted(uni bool, id int64) {
 
 // state monitors, run when the bubble is quiescent
 func (c *smCase) monState() {
+	for _, x := range c.waiters {
+		if x.gen != c.gen {
+			c.monfail("reset/waiter-still-blocked", fmt.Sprintf("OpenStreamSync waiter %d stays blocked on a map replaced by ResetFor0RTT", x.w))
+		}
+	}
+	for _, x := range c.acceptors {
+		if x.gen != c.gen {
+			c.monfail("reset/waiter-still-blocked", fmt.Sprintf("AcceptStream caller %d stays blocked on a map replaced by ResetFor0RTT", x.w))
+		}
+	}
 	for t := 0; t < 2; t++ {
 		in := c.v.SnapIn(t == 1)
 		n := int64(len(in.Streams))
@@ -1304,39 +1320,55 @@ func runSMCase(w *bufio.Writer, r *u.Rng, dist map[string]int, script *smScript)
 // AcceptStream drains that token and takes the first stream. A then blocks in the select. No
 // lost wake-up means: A must not stay blocked while the second stream is waiting to be accepted.
 func smAcceptLostWakeupProbe(w *bufio.Writer) {
+	reported := false
 	for _, client := range []bool{false, true} {
 		for _, uni := range []bool{false, true} {
-			synctest.Run(func() {
-				v := quic.NewVerifSM(client, 10, 10)
-				first := smFirst(uni, !client)
-				var idB int64
-				var eB int
-				h := &smHookCtx{}
-				h.hook = func() <-chan struct{} {
-					v.Recv(first + 4)
-					idB, eB = v.Accept(context.Background(), uni)
-					return nil // never cancelled
-				}
-				var done atomic.Bool
-				var idA int64
-				var eA int
-				go func() {
-					idA, eA = v.Accept(h, uni)
-					done.Store(true)
-				}()
-				synctest.Wait()
-				in := v.SnapIn(uni)
-				if !done.Load() && in.NextAccept < in.NextOpen {
-					fmt.Fprintf(w, "MONFAIL\tstreamsmap/accept/lost-wakeup\tan AcceptStream caller stays blocked although a stream is waiting to be accepted\tclient=%v uni=%v: A=AcceptStream finds no stream; before A reaches its select: one frame opens streams %d and %d; B=AcceptStream returns stream %d (error class %d); A blocks in the select although stream %d is open and unaccepted (nextStreamToAccept=%d nextStreamToOpen=%d)\n",
-						client, uni, first, first+4, idB, eB, first+4, in.NextAccept, in.NextOpen)
-				} else if done.Load() && (eA != 0 || idA != first+4 || idB != first) {
-					fmt.Fprintf(w, "MONFAIL\tstreamsmap/accept/order\tconcurrent AcceptStream callers got the wrong streams\tclient=%v uni=%v: A got %d (error %d), B got %d (error %d)\n", client, uni, idA, eA, idB, eB)
-				}
-				v.Recv(first + 8) // lets A go in any case
-				synctest.Wait()
-				v.Close()
-				synctest.Wait()
-			})
+			// j streams opened by one frame, nb other AcceptStream calls before A reaches its select
+			for _, jn := range [][2]int64{{2, 1}, {1, 0}, {1, 1}, {2, 0}, {2, 2}, {3, 1}, {3, 2}} {
+				j, nb := jn[0], jn[1]
+				synctest.Run(func() {
+					v := quic.NewVerifSM(client, 10, 10)
+					first := smFirst(uni, !client)
+					var gotB []int64
+					h := &smHookCtx{}
+					h.hook = func() <-chan struct{} {
+						v.Recv(first + 4*(j-1))
+						for i := int64(0); i < nb; i++ {
+							id, e := v.Accept(context.Background(), uni)
+							if e != 0 {
+								id = -int64(e)
+							}
+							gotB = append(gotB, id)
+						}
+						return nil // never cancelled
+					}
+					var done atomic.Bool
+					var idA int64
+					var eA int
+					go func() {
+						idA, eA = v.Accept(h, uni)
+						done.Store(true)
+					}()
+					synctest.Wait()
+					in := v.SnapIn(uni)
+					if !done.Load() && in.NextAccept < in.NextOpen && !reported {
+						reported = true
+						fmt.Fprintf(w, "MONFAIL\tstreamsmap/accept/lost-wakeup\tan AcceptStream caller stays blocked although a stream is waiting to be accepted\tclient=%v uni=%v: A=AcceptStream finds no stream; before A reaches its select: one frame opens %d streams (%d..%d) and %d other AcceptStream calls return %v; A blocks in the select although stream %d is open and unaccepted (nextStreamToAccept=%d nextStreamToOpen=%d)\n",
+							client, uni, j, first, first+4*(j-1), nb, gotB, in.NextAccept, in.NextAccept, in.NextOpen)
+					}
+					ok := true
+					for i, id := range gotB {
+						ok = ok && id == first+4*int64(i)
+					}
+					if done.Load() && (eA != 0 || idA != first+4*nb) || !ok {
+						fmt.Fprintf(w, "MONFAIL\tstreamsmap/accept/order\tconcurrent AcceptStream callers got the wrong streams\tclient=%v uni=%v j=%d: A got %d (error %d), the others got %v\n", client, uni, j, idA, eA, gotB)
+					}
+					v.Recv(first + 4*j) // lets A go in any case
+					synctest.Wait()
+					v.Close()
+					synctest.Wait()
+				})
+			}
 		}
 	}
 }
